@@ -156,6 +156,20 @@ def search_c10(ck: Check) -> None:
         ck.notes["template_lex_refuter"] = f"unavailable: {e}"[:200]
     camp = ck.campaign("template search: code-like texts in every description slot and key, all model kinds")
     opts = {"use_schema_description": True, "use_field_description": True}
+    # regex patterns (constr(regex=…) without --field-constraints, Field(pattern=…) with it)
+    for s in c10.PATTERN_TEXTS:
+        for model in ("pydantic.BaseModel", "pydantic_v2.BaseModel"):
+            for o in ({}, {"field_constraints": True}):
+                c10.oracle_case(ck, camp, "pattern", s, model, dict(o), None)
+                if ck.failures:
+                    return
+    # comment-line slots and class-keyword slots (their own document shapes)
+    for slot in c10.EXTRA_SLOTS:
+        for model in e2e.MODEL_KINDS:
+            for s in c10.EXTRA_TEXTS:
+                c10.oracle_case(ck, camp, slot, s, model, dict(opts), None)
+                if ck.failures:
+                    return
     for slot in ("class_description", "field_description", "member_name"):
         for model in e2e.MODEL_KINDS:
             for s in C10_TEXTS:
